@@ -6,6 +6,7 @@ import VK.Model.Codec
 import VK.Model.Transfers
 import VK.Model.Clean
 import VK.Model.Validate
+import VK.Model.Replay
 open Lean VK VK.Codec
 
 def getSTVCfg (j : Json) : D STVCfg := do
@@ -269,6 +270,72 @@ def handle (j : Json) : D Json := do
       ("tiers", jRanking (dominatingTiers p)),
       ("fill_agrees", .bool ((pairs p.cands).all (fun ab =>
           h2hFill p ab.1 ab.2 = h2h p ab.1 ab.2 && h2hFill p ab.2 ab.1 = h2h p ab.2 ab.1)))])])
+  | "history" => do
+    -- run a rule, then answer a sequence of round queries on the finished election
+    let run ← field j "run"
+    let rop ← getStr (← field run "op")
+    let p ← getProfile (← field run "profile")
+    let res : Outcome (States × List Profile) ← (do
+      match rop with
+      | "stv" => do
+        let cfg ← getSTVCfg run
+        let ω ← getSTVOracle run
+        pure ((stvRun cfg p ω (quotaOk run)).bind (fun r => .ok (r.states, r.profiles)))
+      | "plurality" => do
+        let m ← getInt (← field run "m"); let tb ← getTB (fieldD run "tiebreak" .null)
+        let pri ← getCands (fieldD run "pri" .null)
+        pure ((pluralityRun p m.toNat tb pri).bind (fun st => .ok (st, singleRoundProfiles p st)))
+      | "borda_run" => do
+        let m ← getInt (← field run "m"); let tb ← getTB (fieldD run "tiebreak" .null)
+        let pri ← getCands (fieldD run "pri" .null)
+        let v ← optField run "vector" (getList getRat)
+        pure ((bordaRun p m.toNat v tb pri).bind (fun st => .ok (st, singleRoundProfiles p st)))
+      | "score_rule" => do
+        let rule ← getScoreRule (← getStr (← field run "rule"))
+        let m ← getInt (← field run "m")
+        let L ← getRat (fieldD run "L" (.str "1"))
+        let k ← optField run "k" getRat
+        let tb ← getTB (fieldD run "tiebreak" .null)
+        let pri ← getCands (fieldD run "pri" .null)
+        pure ((scoreRuleRun rule p m L k tb pri).bind (fun st => .ok (st, singleRoundProfiles p st)))
+      | "dominating" => pure ((dominatingSetsRun p).bind (fun st => .ok (st, singleRoundProfiles p st)))
+      | "condo_borda" => do
+        let m ← getInt (← field run "m"); let pri ← getCands (fieldD run "pri" .null)
+        pure ((condoBordaRun p m.toNat pri).bind (fun st => .ok (st, singleRoundProfiles p st)))
+      | "top_two" => do
+        let tb ← getTB (fieldD run "tiebreak" .null)
+        let pri ← byRound getCands [] (fieldD run "pri" .null)
+        pure ((topTwoRun p tb pri).bind (fun st => .ok (st, topTwoProfiles p st)))
+      | "alaska" => do
+        let cfg ← getSTVCfg (run.setObjVal! "m" (jNat 1))
+        let ω ← getSTVOracle run
+        let m1 ← getInt (← field run "m1"); let m2 ← getInt (← field run "m2")
+        pure ((alaskaRun p m1 m2 cfg ω (quotaOk run)).bind (fun st => .ok (st, alaskaProfiles p m2 cfg ω st)))
+      | "random_dictator" => do
+        let m ← getInt (← field run "m"); let ω ← getRDOracle run
+        pure ((randomDictatorRun p m ω).bind (fun st => .ok (st, p :: sequentialProfiles p (st.drop 1))))
+      | "boosted" => do
+        let m ← getInt (← field run "m"); let ω ← getRDOracle run
+        pure ((boostedRun p m ω).bind (fun st => .ok (st, p :: sequentialProfiles p (st.drop 1))))
+      | _ => throw s!"history: unknown rule op {rop}")
+    let calls ← getList (getPair getStr getInt) (← field j "calls")
+    match res with
+    | .ok (st, profiles) =>
+      let outs := calls.map (fun (name, r) =>
+        match name with
+        | "get_elected" => jOutcome jRanking (getElected st r)
+        | "get_eliminated" => jOutcome jRanking (getEliminated st r)
+        | "get_remaining" => jOutcome jRanking (getRemaining st r)
+        | "get_ranking" => jOutcome jRanking (getRanking st r)
+        | "get_status_df" => jOutcome jStatus (getStatus p.cands st r)
+        | "get_profile" => jOutcome jProfile (VK.getProfile profiles r)
+        | "get_step" => jOutcome (fun (x : Profile × RoundState) => Json.arr #[jProfile x.1, jState x.2])
+            (do let pr ← VK.getProfile profiles r; let s ← pyIndex st r; pure (pr, s))
+        | _ => Json.mkObj [("error", .str "unknown query")])
+      pure (Json.mkObj [("ok", Json.mkObj [("states", jStates st), ("answers", .arr outs.toArray)])])
+    | .raised e => pure (Json.mkObj [("exn", .str (exnName e))])
+    | .oracleMismatch => pure (Json.mkObj [("mismatch", .bool true)])
+    | .outOfFuel => pure (Json.mkObj [("fuel", .bool true)])
   | "query" => do
     let st ← getList (fun s => do
       let round ← getNat (fieldD s "round" (jNat 0))
